@@ -184,6 +184,7 @@ type modelSession struct {
 	cache  map[int]*sexp
 	rounds int
 	start  time.Time
+	inst   bool
 }
 
 func (m *modelSession) values(terms []*Term) ([]*sexp, error) {
@@ -211,7 +212,7 @@ func (m *modelSession) values(terms []*Term) ([]*sexp, error) {
 		m.x.assumes = pinned
 		o2 := *m.o
 		o2.nAssume = len(pinned)
-		text := m.x.smtText(&o2, need)
+		text := m.x.smtTextMode(&o2, need, m.inst)
 		m.x.assumes = saved
 		file := filepath.Join(m.dir, fmt.Sprintf("%s.model%d.smt2", sanitize(m.o.Name), m.rounds))
 		os.WriteFile(file, []byte(text), 0o644)
@@ -484,6 +485,14 @@ func (lc *litCtx) lit(t *Term, typ types.Type, depth int) (string, error) {
 		lc.nvar++
 		name := fmt.Sprintf("a%d", lc.nvar)
 		fmt.Fprintf(lc.pre, "\tvar %s %s\n", name, tname)
+		if t.sort == SInt {
+			// array embedded in a struct: t is the reference of its row
+			if _, isStruct := u.Elem().Underlying().(*types.Struct); isStruct {
+				return name, nil
+			}
+			cn, cs := x.elemComp(u.Elem())
+			t = ts.Select(x.comp(lc.st, cn, cs), t)
+		}
 		for i := int64(0); i < u.Len() && i < 4; i++ {
 			e, err := lc.lit(ts.Select(t, ts.BV(uint64(i), 64)), u.Elem(), depth+1)
 			if err != nil {
@@ -578,8 +587,14 @@ func (e *Engine) Replay(r *Result, d *Discharged, outDir string) *ReplayOutcome 
 		os.WriteFile(out.File, []byte(sb.String()), 0o644)
 		return out
 	}
+	useInst := false
 	if d.Res.Status != "sat" {
-		return writeStub("the solver gave no model (" + d.Res.Status + ")")
+		if d.InstSat == "" {
+			return writeStub("the solver gave no model (" + d.Res.Status + ")")
+		}
+		// the full query was not decided, but its ground-instantiated weakening has a
+		// model: try it (the replay on the real code decides whether it is genuine)
+		useInst = true
 	}
 	tp := e.typesPkg(c.PkgPath)
 	imports := map[string]bool{}
@@ -595,7 +610,10 @@ func (e *Engine) Replay(r *Result, d *Discharged, outDir string) *ReplayOutcome 
 	for n, s := range x.compSort {
 		st0.heap[n] = x.w.Const(n+"!0", s)
 	}
-	ms := &modelSession{x: x, o: d.Obl, solver: d.Res.Solver, dir: outDir, cache: map[int]*sexp{}}
+	ms := &modelSession{x: x, o: d.Obl, solver: d.Res.Solver, dir: outDir, cache: map[int]*sexp{}, inst: useInst}
+	if useInst {
+		ms.solver = d.InstSat
+	}
 	ms.preferSmall()
 	lc := &litCtx{m: ms, qual: qual, pre: &pre, st: st0, imports: map[string]bool{}, start: time.Now()}
 	var args []string
@@ -735,7 +753,7 @@ func (m *modelSession) preferSmall() {
 		x.assumes = append(append([]*Term{}, x.assumes[:n]...), pins...)
 		o2 := *m.o
 		o2.nAssume = len(x.assumes)
-		text := x.smtText(&o2, nil)
+		text := x.smtTextMode(&o2, nil, m.inst)
 		x.assumes = saved
 		file := filepath.Join(m.dir, fmt.Sprintf("%s.small%d.smt2", sanitize(m.o.Name), k))
 		os.WriteFile(file, []byte(text), 0o644)
